@@ -29,7 +29,11 @@ type edit struct {
 func main() {
 	out, runtimeSrc := os.Args[1], os.Args[2]
 	fset := token.NewFileSet()
-	dir := "/repo/geom"
+	repo := os.Getenv("VERIF_REPO")
+	if repo == "" {
+		repo = "/repo"
+	}
+	dir := filepath.Join(repo, "geom")
 	names, _ := filepath.Glob(filepath.Join(dir, "*.go"))
 	var files []*ast.File
 	var paths []string
@@ -202,7 +206,7 @@ func main() {
 		}
 		overlay[paths[fi]] = dst
 	}
-	overlay["/repo/verifenvx/envx.go"] = runtimeSrc
+	overlay[filepath.Join(repo, "verifenvx", "envx.go")] = runtimeSrc
 	b, _ := json.MarshalIndent(map[string]interface{}{"Replace": overlay}, "", " ")
 	if err := os.WriteFile(filepath.Join(out, "overlay.json"), b, 0o644); err != nil {
 		fail(err)
